@@ -1282,6 +1282,8 @@ class Interp:
                 parts.append(v.value)
             else:
                 x = self.eval(v.value, env)
+                if isinstance(x, Lin) and x.is_const() and x.const.denominator == 1 and v.format_spec is None:
+                    x = str(int(x.const))
                 parts.append(x if isinstance(x, (str, Str)) else _StrOf(x))
         return mkcat(parts)
 
@@ -1442,6 +1444,14 @@ class Interp:
                 except Exception:
                     raise PyRaise("ValueError", node)
             raise Undecided("float(%r)" % (v,))
+        if n == "int":
+            v = args[0]
+            if isinstance(v, str):
+                try:
+                    return Lin.num(int(v))
+                except ValueError:
+                    raise PyRaise("ValueError", node)
+            raise Undecided("int(%r)" % (v,))
         if n == "abs":
             v = self.num(args[0], node)
             s = self.sign(v, None, node)
